@@ -110,6 +110,10 @@ Inductive role := RFg | RBg | RUl.
 Definition role_code (r : role) : list N :=
   match r with RFg => [51; 56] | RBg => [52; 56] | RUl => [53; 56] end.   (* "38" "48" "58" *)
 
+(* '\x1b' | '\u{90}' | '\u{98}' | '\u{9b}' | '\u{9d}' | '\u{9e}' | '\u{9f}' *)
+Definition opens_sequence (c : N) : bool :=
+  (c =? 27) || (c =? 144) || (c =? 152) || (c =? 155) || (c =? 157) || (c =? 158) || (c =? 159).
+
 Section Encoder.
   (* palette index under EightBit / level 0..3 under Gray (see header) *)
   Variable pal256 : rgba -> N.
@@ -224,7 +228,9 @@ Section Encoder.
         end
     | FaceGet => Ok ([27; 80; 36; 113; 109] ++ ST)
     | Reset => Ok [27; 99]
-    | Char c => Ok (utf8_enc c)
+    | Char c =>
+        (* ESC and the C1 introducers are written as U+FFFD (REPLACEMENT CHARACTER) *)
+        Ok (utf8_enc (if opens_sequence c then 65533 else c))
     | Scroll count =>
         if (count <? 0)%Z then Ok (CSI ++ print (unsigned_abs count) ++ [84])
         else if (0 <? count)%Z then Ok (CSI ++ print (Z.to_N count) ++ [83])
